@@ -4,7 +4,7 @@ NOTES = ("Solver-based checking of the real code. Engine A: Kani 0.68/CBMC 6.11 
 	"/repo's working tree (regenerated on every run). Engine B: nightly MIR dump -> SMT-LIB2 (z3/cvc5). Exit codes: 0 held / only "
 	"listed known findings; 1 VIOLATION (reproduced counterexample); 2 inconclusive (timeout, memory, vacuous cover, overlay mismatch).")
 ENGINES = [
-	{"name": "mir-smt", "path": "/verif/lib/engine_b.py", "serves_properties": ["C13", "C06", "C02"], "kind_free_text": "nightly MIR dump -> call skeleton -> SMT-LIB2 interleaving model, z3/cvc5"},
+	{"name": "mir-smt", "path": "/verif/lib/engine_b.py", "serves_properties": ["C13", "C06", "C02", "C09"], "kind_free_text": "nightly MIR dump -> call skeleton -> SMT-LIB2 interleaving model, z3/cvc5"},
 	{"name": "kani-overlay", "path": "/verif/lib/vlib.py", "serves_properties": [], "kind_free_text": "Kani/CBMC bounded model checking of the repository's functions, harnesses in /verif/harness overlaid on a scratch copy"},
 ]
 BMC = "bounded model checking"
@@ -83,8 +83,9 @@ CHECKS["C09"] = {
 	"text": "What decides which tiles a filter stage passes is the coverage pyramid it consults (lookup: contains_coord guard; stream: intersect_pyramid). CBMC decides for pyramids with all 32 levels symbolic: "
 		"set_zoom_min/max keep exactly the levels in [min, max] for every u8 pair (incl. min > max, > 31); intersect is the level-wise set intersection; contains_coord and intersect_pyramid are exact; "
 		"a valid geographic box always maps to a tile box (no error for filter_bbox to unwrap).",
-	"note": "The filter Operation objects themselves (Box<dyn OperationTrait>, async_trait futures) are out of reach for CBMC (no verdict at the smallest bound, DESIGN 0.2 item 3): that they consult exactly this pyramid is by reading. Build glue / VPL parsing outside.",
-	"technique": BMCT,
+	"note": "The filter Operation objects themselves (Box<dyn OperationTrait>, async_trait futures) are out of reach for CBMC (no verdict at the smallest bound, DESIGN 0.2 item 3); that their lookup guards with and their stream clips by exactly this pyramid is decided by Engine B: "
+		"the guard/clip call skeleton of filter_zoom / filter_bbox get_tile_data and get_tile_stream is extracted from the nightly MIR and z3 (thorough: also cvc5) decides lookup = coverage and stream = lookups inside the box for every level, coverage box (also empty), request box and tile; a SAT model is replayed on real pipelines over from_debug. Build glue / VPL parsing outside.",
+	"technique": BMCT + "; plus symbolic encoding of the compiler's MIR (-Zunpretty=mir -> SMT-LIB2), z3 / cvc5, for the async operations",
 }
 CHECKS["C03"] = {
 	"text": "Kernels from which readers and operations derive their advertised coverage: folding include_coord over stored tiles yields exactly their bounding box per level (tar / directory / PMTiles readers); "
